@@ -1334,10 +1334,10 @@ class Interp:
             for i in range(t.r):
                 for j in range(t.c):
                     t.e[i][j] = sp.sympify(vals[i * t.c + j])
-            nm = tgt.name if isinstance(tgt, Ref) and tgt.kind == "var" else None
-            if nm is not None:
-                self.snapshots.append({"var": nm, "id": tgt.id, "value": t.copy(), "line": e.get("line"),
-                                       "loop": self.loop_stack[-1]["summary"] if self.loop_stack else None})
+            # a filled block literal, whatever holds it (a local, a member of a local record, an out-parameter)
+            nm = tgt.name if isinstance(tgt, Ref) and tgt.kind == "var" else getattr(tgt, "name", None) or "literal"
+            self.snapshots.append({"var": nm, "id": getattr(tgt, "id", None), "value": t.copy(), "line": e.get("line"),
+                                   "loop": self.loop_stack[-1]["summary"] if self.loop_stack else None})
 
     def index(self, objr, idx, e):
         v = objr
